@@ -38,7 +38,7 @@ MENU = [
     ('k_term.pel', 0x50000002, 0x51, 0x2000, 'O', 0x40, '2024050607080910', 0x5000, ['PSc', 'MT']),
     ('K_term.pel', 0x50000005, 0x20, 0x0000, 'T', 0x50, '2024060708091011', 0x6000, ['PS']),
     ('y_nosrc.pel', 0x50000003, 0x10, 0x2000, 'O', 0x60, '2024070809101112', 0x7000, ['UD']),
-    ('d_pre.txt', 0x50000004, 0x71, 0x2000, 'K', 0x70, '2024080910111213', 0x8000, ['UD', 'LP', 'EH', 'PS', 'MT']),
+    ('d_pre.txt', 0x50000004, 0x71, 0x2000, 'K', 0x70, '2024080910111213', 0x8000, ['UD0', 'UD', 'LP', 'EH', 'PS', 'MT']),
 ]
 S_LISTS = {'none': [], 'one': None, 'two': ['Informational', 'Critical'], 'all': list(ref.GROUP_DIGIT)}
 ONE_GROUPS = list(ref.GROUP_DIGIT)
@@ -54,6 +54,8 @@ def pel_bytes(i):
             sections.append({'t': 'PS', 'ascii': ('BD%02X%04X' % (0x8D + i, 0x1000 + i)).ljust(32)})
         elif t == 'UD':
             sections.append({'t': 'UD', 'comp': 0x4142, 'payload': bytes([i] * 12).hex()})
+        elif t == 'UD0':
+            sections.append({'t': 'UD', 'comp': 0x4142, 'payload': ''})      # no payload at all, in front of the primary SRC
         elif t == 'PSc':
             # callouts whose FRU identity carries every / some / none of the optional fields (the list modes stop after this
             # section, the full decode must find the next one exactly behind it)
